@@ -111,8 +111,11 @@ static void utf8_len(size_t n)
 }
 void h_utf8(void)
 {
-	size_t n = nondet_size(); ASSUME(n >= 1 && n <= SMAX);
-	for (size_t k = 1; k <= SMAX; k++) if (n == k) { utf8_len(k); break; }
+#ifndef SMIN
+#define SMIN 1
+#endif
+	size_t n = nondet_size(); ASSUME(n >= SMIN && n <= SMAX);
+	for (size_t k = SMIN; k <= SMAX; k++) if (n == k) { utf8_len(k); break; }
 	V_REACH();
 }
 static int printable_ref(uint8_t c)
